@@ -20,12 +20,14 @@ type verifRequest struct {
 	port               uint32
 	principal          string // peer URI SAN (spiffe://...), "" when the peer is not authenticated
 	iss, sub           string // JWT claims ("" when absent)
+	srcIP, remoteIP    uint32 // direct peer address and original client address (IPv4)
 }
 
 func verifReq() *verifRequest {
 	r := &verifRequest{
 		method: vp.StringIn("req.method", 3, "GEPUT"), path: "/" + vp.StringIn("req.path", 2, "ab/"), host: vp.StringIn("req.host", 3, "ab."),
 		port: vp.Uint32("req.port"), iss: vp.StringIn("req.iss", 1, "ij"), sub: vp.StringIn("req.sub", 1, "uv"),
+		srcIP: vp.Uint32("req.srcIP"), remoteIP: vp.Uint32("req.remoteIP"),
 	}
 	// the peer is unauthenticated (no principal) or carries a well-formed SPIFFE identity with arbitrary parts
 	if vp.Choice("req.authenticated", 2) == 1 {
@@ -144,12 +146,57 @@ func verifPrincipal(p *rbacpb.Principal, r *verifRequest) bool {
 		return vp.Not(verifPrincipal(x.NotId, r))
 	case *rbacpb.Principal_Authenticated_:
 		return verifStringMatcher(x.Authenticated.PrincipalName, r.principal)
+	case *rbacpb.Principal_DirectRemoteIp:
+		return verifInCidr(x.DirectRemoteIp.AddressPrefix, x.DirectRemoteIp.PrefixLen.GetValue(), r.srcIP)
+	case *rbacpb.Principal_RemoteIp:
+		return verifInCidr(x.RemoteIp.AddressPrefix, x.RemoteIp.PrefixLen.GetValue(), r.remoteIP)
 	case *rbacpb.Principal_Metadata:
 		return verifMetadata(x.Metadata, r)
 	case *rbacpb.Principal_Header:
 		return verifHeader(x.Header, r)
 	}
 	panic("unmodelled principal")
+}
+
+func verifParseV4(s string) uint32 {
+	var a uint32
+	parts := strings.Split(s, ".")
+	if len(parts) != 4 {
+		panic("not an IPv4 address: " + s)
+	}
+	for _, p := range parts {
+		n, err := strconv.Atoi(p)
+		if err != nil || n < 0 || n > 255 {
+			panic("not an IPv4 address: " + s)
+		}
+		a = a<<8 | uint32(n)
+	}
+	return a
+}
+
+func verifInCidr(prefix string, bits uint32, ip uint32) bool {
+	if bits > 32 {
+		panic("prefix length")
+	}
+	var mask uint32
+	if bits > 0 {
+		mask = ^uint32(0) << (32 - bits)
+	}
+	return ip&mask == verifParseV4(prefix)&mask
+}
+
+// reference reading of an ipBlocks value: a single address or a CIDR
+func verifIPBlock(v string, ip uint32) bool {
+	addr, bitsS, isCidr := strings.Cut(v, "/")
+	bits := 32
+	if isCidr {
+		b, err := strconv.Atoi(bitsS)
+		if err != nil {
+			panic("bad cidr in the menu")
+		}
+		bits = b
+	}
+	return verifInCidr(addr, uint32(bits), ip)
 }
 
 func verifPolicyMatches(p *rbacpb.Policy, r *verifRequest) bool {
@@ -221,6 +268,17 @@ func verifRuleMatches(rule *authzpb.Rule, r *verifRequest) bool {
 			return verifValue("spiffe://"+v, r.principal)
 		})
 		m = vp.And(m, verifField(s.Namespaces, s.NotNamespaces, func(v string) bool { return vp.And(okPeer, verifValue(v, ns)) }))
+		m = vp.And(m, verifField(s.ServiceAccounts, s.NotServiceAccounts, func(v string) bool {
+			// "<sa>" in the policy's own namespace, or "<ns>/<sa>"
+			wantNs, wantSa, qualified := strings.Cut(v, "/")
+			if !qualified {
+				wantNs, wantSa = verifPolicyNamespace, v
+			}
+			_, _, _, sa := verifPeerParts(r.principal)
+			return vp.And3(okPeer, ns == wantNs, sa == wantSa)
+		}))
+		m = vp.And(m, verifField(s.IpBlocks, s.NotIpBlocks, func(v string) bool { return verifIPBlock(v, r.srcIP) }))
+		m = vp.And(m, verifField(s.RemoteIpBlocks, s.NotRemoteIpBlocks, func(v string) bool { return verifIPBlock(v, r.remoteIP) }))
 		m = vp.And(m, verifField(s.RequestPrincipals, s.NotRequestPrincipals, func(v string) bool {
 			return vp.And3(r.iss != "", r.sub != "", verifValue(v, r.iss+"/"+r.sub))
 		}))
@@ -302,9 +360,27 @@ func verifOperation() *authzpb.Operation {
 }
 
 // from-source with exactly one populated field family (or none)
+// the namespace of the policy (serviceAccounts without a namespace refer to it); one of the request's possible namespaces
+const verifPolicyNamespace = "a"
+
 func verifSource() *authzpb.Source {
 	src := &authzpb.Source{}
-	switch vp.Choice("from.field", 4) {
+	switch vp.Choice("from.field", 7) {
+	case 4:
+		src.ServiceAccounts = []string{[]string{"a", "b/a", "ab/b"}[vp.Choice("from.serviceAccounts.v", 3)]}
+		if vp.Choice("from.notServiceAccounts.n", 2) == 1 {
+			src.NotServiceAccounts = []string{"b"}
+		}
+	case 5:
+		src.IpBlocks = []string{[]string{"10.1.2.3", "10.0.0.0/8", "0.0.0.0/0"}[vp.Choice("from.ipBlocks.v", 3)]}
+		if vp.Choice("from.notIpBlocks.n", 2) == 1 {
+			src.NotIpBlocks = []string{"10.1.0.0/16"}
+		}
+	case 6:
+		src.RemoteIpBlocks = []string{[]string{"192.168.0.1", "192.168.0.0/24"}[vp.Choice("from.remoteIpBlocks.v", 2)]}
+		if vp.Choice("from.notRemoteIpBlocks.n", 2) == 1 {
+			src.NotRemoteIpBlocks = []string{"192.168.0.128/25"}
+		}
 	case 1:
 		src.Principals, src.NotPrincipals = verifPrincipalVals("from.principals"), nil
 		if vp.Choice("from.notPrincipals.n", 2) == 1 {
@@ -394,7 +470,7 @@ func verifLabel(rule *authzpb.Rule, label string) string {
 func verifHTTPEquivalence(part int) {
 	rule := verifRule(part)
 	action := []rbacpb.RBAC_Action{rbacpb.RBAC_ALLOW, rbacpb.RBAC_DENY}[vp.Choice("action", 2)]
-	m, err := New(types.NamespacedName{Namespace: "ns", Name: "pol"}, rule)
+	m, err := New(types.NamespacedName{Namespace: verifPolicyNamespace, Name: "pol"}, rule)
 	if err != nil {
 		vp.Unreachable("rule-of-the-grammar-is-accepted")
 	}
@@ -417,7 +493,7 @@ func VerifC08HTTPBoth() { verifHTTPEquivalence(verifBoth) }
 func verifTCPFailClosed(part int) {
 	rule := verifRule(part)
 	action := []rbacpb.RBAC_Action{rbacpb.RBAC_ALLOW, rbacpb.RBAC_DENY}[vp.Choice("action", 2)]
-	m, err := New(types.NamespacedName{Namespace: "ns", Name: "pol"}, rule)
+	m, err := New(types.NamespacedName{Namespace: verifPolicyNamespace, Name: "pol"}, rule)
 	if err != nil {
 		vp.Unreachable("rule-of-the-grammar-is-accepted")
 	}
@@ -463,7 +539,7 @@ func VerifC08TCPBoth() { verifTCPFailClosed(verifBoth) }
 // Mutant twin: "notPaths is ignored" must be refuted.
 func VerifC08Twin() {
 	rule := &authzpb.Rule{To: []*authzpb.Rule_To{{Operation: &authzpb.Operation{NotPaths: []string{"/a"}}}}}
-	m, _ := New(types.NamespacedName{Namespace: "ns", Name: "pol"}, rule)
+	m, _ := New(types.NamespacedName{Namespace: verifPolicyNamespace, Name: "pol"}, rule)
 	pol, _ := m.Generate(false, true, rbacpb.RBAC_ALLOW)
 	r := verifReq()
 	vp.Assert(verifPolicyMatches(pol, r), "twin")
